@@ -58,7 +58,8 @@ def gen_movies(rng, tier):
         frags = []
         clock = {t["id"]: rng.choice([0, 5, 1 << 33]) for t in tracks}
         cnt = {t["id"]: 1 for t in tracks}
-        for f in range(rng.randint(1, 3)):
+        # one movie in four: 4-7 movie fragments (run lengths then differ in the middle of the sequence, not only at its ends)
+        for f in range(rng.randint(4, 7) if rng.random() < 0.25 else rng.randint(1, 3)):
             fr = []
             chosen = rng.sample(tracks, rng.randint(1, ntr))
             # several track fragments of the same track in one movie fragment (legal: 14496-12 8.8.6), in any position
@@ -97,7 +98,7 @@ def check(rep):
     cases, meta = [], []
     for mi, (tracks, frags, dflt) in enumerate(movies):
         extra = [isogen.Box("free", [isogen.Raw(b"pad")])] if mi % 5 == 0 else []
-        init, fin = isogen.build_fragmented(tracks, frags, trex_dur=dflt, extra_between=extra, large_moof=(mi % 4 == 1))
+        init, fin = isogen.build_fragmented(tracks, frags, trex_dur=dflt, extra_between=extra, large_moof=(mi % 4 == 1), last_mdat_to_eof=(mi % 5 == 2))
         media1, runs1 = fin(len(init))
         cases.append({"data": init + media1})
         meta.append((mi, "single", init + media1, runs1, dflt, tracks))
@@ -210,7 +211,7 @@ def check(rep):
     rep.coverage.update({"evaluations": 2 * len(cases), "distinct_nontrivial": len(distinct),
                          "rule": "shape-exhaustive one-track movies: base {moof start, explicit base-data-offset, explicit base with negative data offsets} x default-base-is-moof flag set/clear (ignored when an explicit base is present) x tfhd default duration "
                                  "present/absent x per-sample durations present/absent x composition offsets present/absent x tfdt version 0/1 x 1-2 fragments; 2-3 track fragments of one track inside one movie fragment x base mode x following fragment; plus seeded random movies "
-                                 "(1-2 tracks, 1-3 fragments, repeated tracks inside a fragment, track fragments without a run, 64-bit moof headers, 0-5 samples per run, empty runs, 64-bit decode times, free boxes between fragments); each as one stream and as "
+                                 "(1-2 tracks, 1-3 fragments, repeated tracks inside a fragment, track fragments without a run, 64-bit moof headers, a last media data box of size 0 (to the end of the file), 0-5 samples per run, empty runs, 64-bit decode times, free boxes between fragments); each as one stream and as "
                                  "init segment + media segment (read_fragment_header); debug and release; non-trivial = distinct run lists with at least one sample",
                          "input_distribution": stats})
     rep.coverage["samples"] = [{"runs": meta[0][3]}, {"runs": meta[len(meta) // 2][3]}]
